@@ -622,3 +622,59 @@ pub fn probe(tag: &str, text: &str) {
         }
     }
 }
+
+// ---------------------------------------------------------------------------------------
+// retained sessions (C17): one compiler and one VM for several lines, as the interactive prompt does
+
+pub struct Session {
+    compiler: Option<nederlang::compiler::Compiler>,
+    vm: Option<nederlang::vm::VM>,
+}
+
+pub fn session_begin() -> Session {
+    verif::heap_enable(true);
+    verif::heap_reset();
+    verif::take_events();
+    verif::set_boundaries(None);
+    take_last_panic();
+    GCSTATS.with(|g| *g.borrow_mut() = GcStats::default());
+    Session { compiler: Some(nederlang::compiler::Compiler::new()), vm: Some(nederlang::vm::VM::new()) }
+}
+
+impl Session {
+    /// parse, compile and run one line on the retained compiler and VM
+    pub fn line(&mut self, text: &str, budget: u64) -> Obs {
+        note_current("session-line", text);
+        verif::set_budget(budget);
+        verif::capture_start();
+        verif::take_events();
+        let compiler = self.compiler.as_mut().unwrap();
+        let vm = self.vm.as_mut().unwrap();
+        let r = catch_unwind(AssertUnwindSafe(|| {
+            let ast = nederlang::parser::parse(text)?;
+            let code = compiler.compile_ast(&ast)?;
+            vm.run(code)
+        }));
+        let ticks = verif::ticks();
+        let mut w = Walker::new();
+        let outcome = match r {
+            Ok(r) => classify_result(r, &mut w),
+            Err(p) => classify_unwind(p),
+        };
+        // the result is not released: it may be a value the session still refers to (the prompt only prints it)
+        let output = verif::capture_take();
+        let events: Vec<String> = verif::take_events().iter().map(|e| scrub(e)).collect();
+        verif::set_budget(u64::MAX);
+        Obs { outcome, output, events, ticks, heap: HeapReport::default() }
+    }
+    pub fn end(mut self) {
+        let vm = self.vm.take();
+        let compiler = self.compiler.take();
+        let _ = catch_unwind(AssertUnwindSafe(move || {
+            drop(vm);
+            drop(compiler);
+        }));
+        verif::take_events();
+        verif::heap_reset();
+    }
+}
